@@ -5,7 +5,7 @@ use std::time::Duration;
 use grenad::verif::{varint_decode32, varint_encode32};
 use serde_json::json;
 use vlib::fam::FileCfg;
-use vlib::fmt::{decode_file, leb128_encode};
+use vlib::fmt::{decode_structure, leb128_encode};
 use vlib::report::{par_for, Acc, Deadline, Report, Tier, Violation};
 
 use crate::common::{guarded, write_file};
@@ -72,7 +72,7 @@ pub fn check_entry(klen: usize, vlen: usize) -> Result<(), String> {
             return Err(format!("entry with key length {klen}, value length {vlen}: {} does not return the inserted bytes", q.brief()));
         }
     }
-    let layout = guarded(|| decode_file(&bytes, Some(1)))?.map_err(|e| format!("independent decoder: {e}"))?;
+    let layout = guarded(|| decode_structure(&bytes))?.map_err(|e| format!("independent decoder: {e}"))?;
     if layout.entries != entries {
         return Err(format!("entry with key length {klen}, value length {vlen}: independent decoder recovers different bytes"));
     }
